@@ -277,7 +277,9 @@ def store_oracle(h, meta, lines, tags, impl, model, want):
                         yield ("every non-empty data file is eligible by the configured thresholds, yet the merge left some unmerged: " + str(sorted(nonempty - selected)), li,
                                "sel >= " + str(sorted(nonempty)), sel.group(1), None)
                         return
-                if nonempty <= selected:
+                # (a key the known finding D3 has brought back at a reopen of this very history is live to the store and not to the map;
+                #  the exact size is then left to the comparison with the Lean model, which reproduces D3)
+                if nonempty <= selected and not tainted:
                     live = sum(25 + len(k) + len(v) for k, v in sm.m.items())
                     if after != live:
                         yield ("with every non-empty file merged the store is not exactly as large as the live pairs", li, str(live), str(after), None)
@@ -474,7 +476,31 @@ def run_c02(rep, tier, seed):
     n = 250 if tier == "quick" else 3000
     generic_store_check(rep, tier, seed, "C02", {"put", "del", "get", "reopen"},
                         lambda meta: (lambda i, op: (gets(meta) + ["dump"]) if op[0] == "reopen" else []), {"map", "restart"}, n, share_long=0.2)
-    rep.cov["rule"] = ("histories of put/del/get with reopen cycles at arbitrary positions (also consecutive), >=12 files in a fixed share of cases; after every reopen every key "
+    # histories need not be sequential: two operations on one key race for the writer, one of them held between its append
+    # and its index update; what the store reads once both have returned is what it must read after the restart
+    root = os.path.join(WORK, "run-C02-race")
+    for mfs in (1000000, 0):
+        for (opa, opb) in (("put 6b 6161", "put 6b 6262"), ("put 6b 6161", "del 6b"), ("del 6b", "put 6b 6262")):
+            point = "put.before_publish" if opa.startswith("put") else "del.before_publish"
+            script = [f"cfg mfs={mfs} pool=2", "dir race", "open", "put 6b 3030", f"t.park A {point} 1", f"t.spawn A {opa}", "t.wait A 5000",
+                      f"t.spawn B {opb}", "sleep 150", "t.release A", "t.join A 5000", "t.join B 5000", "get 6b", "reopen", "get 6b", "reopen", "get 6b"]
+            shutil.rmtree(root, ignore_errors=True)
+            try:
+                ans = run_harness(["store", "--root", root, "--hang-ms", "20000"], script, preload=False, timeout=120)
+            except Died as d:
+                rep.violation("oracle", dict(what=f"two racing operations on one key: harness died / hung ({d.why})", script=script, answers=d.answered))
+                continue
+            rep.cov["evaluations"] += len(script)
+            rep.count("racing_pairs_then_restart")
+            rep.nontrivial(["c02race", mfs, opa, opb])
+            i = script.index("get 6b")
+            if not ans[6].startswith("parked") or not ans[10].startswith("done") or not ans[11].startswith("done"):
+                rep.violation("correspondence", dict(what="the racing pair could not be set up (no thread stopped between append and index update)", script=script, answers=ans, expected="parked / done / done", observed=f"{ans[6]} / {ans[10]} / {ans[11]}"))
+            elif not (ans[i] == ans[i + 2] == ans[i + 4]):
+                rep.violation("oracle", dict(what=f"`{opa}` (held between its append and its index update) races with `{opb}`: once both have returned the key reads {ans[i]}, after a restart {ans[i + 2]}, after another {ans[i + 4]}",
+                                             script=script, answers=ans, failing_line=i + 2, expected=ans[i], observed=ans[i + 2]))
+    shutil.rmtree(root, ignore_errors=True)
+    rep.cov["rule"] = ("histories of put/del/get with reopen cycles at arbitrary positions (also consecutive), >=12 files in a fixed share of cases; pairs of racing operations on one key (one held between append and index update) followed by two restarts; after every reopen every key "
                        "is read and the index dumped; compared with the Lean model (results, index, counters) and with a plain map; non-trivial = distinct history with >=3 ops")
 
 
@@ -534,9 +560,9 @@ def run_c13(rep, tier, seed):
             else:
                 ops.append(op)
         h.ops = ops
-    generic_store_check(rep, tier, seed, "C13", {"put", "del", "get", "merge"},
+    generic_store_check(rep, tier, seed, "C13", {"put", "del", "get", "merge", "reopen"},
                         lambda meta: (lambda i, op: ["hazard", "files", "dump"] if op[0] == "merge" else []), {"sizes"}, n, mutate_hist=mutate)
-    rep.cov["rule"] = ("histories with merges under all presets (the `all` preset makes every file with counters eligible), a second merge right after 40% of merges; data file "
+    rep.cov["rule"] = ("histories with merges and reopens (counters rebuilt from data and hint files) under all presets (the `all` preset makes every non-empty file eligible), a second merge right after 40% of merges; data file "
                        "sizes before/after each merge from the real directory: never larger; = sum of live pair sizes (25+|k|+|v|) when every non-empty file was selected; "
                        "selected sets, sizes, index and counters compared with the Lean model; non-trivial = distinct history with >=3 ops")
 
